@@ -187,6 +187,12 @@ def scenarios(tier):
             S.append(mk("third-%s-%s" % (name, flow), cfg(flow, None, "deferred", drops=(0, 0), sends=0, raw=name),
                         max_depth=90, max_states=300000))
     S.append(mk("third-polite-pair-dev2", cfg("set", "same", "delegate", drops=(0, 0), fine=(0, 1), raw="polite"), dev_bound=2, max_depth=250))
+    # a server that does not enforce the reference implementation's two-side limit (the protocol does not require it):
+    # the third participant's messages and the genuine peer's both reach the client, in every order
+    S.append(mk("third-otherpw-pair-uncrowded-dev2", cfg("set", "same", "delegate", drops=(0, 0), fine=(0,), sends=0, raw="otherpw", crowd_limit=None),
+                dev_bound=2 if q else 3, max_depth=250))
+    S.append(mk("third-nopake-pair-uncrowded-dev2", cfg("input-short", "same", "delegate", drops=(0, 0), fine=(0, 1), raw="nopake", crowd_limit=None),
+                dev_bound=2, max_depth=250))
     S.append(mk("third-nopake-pair-dev2", cfg("input-short", "same", "delegate", drops=(0, 0), fine=(0, 1), raw="nopake"), dev_bound=2, max_depth=250))
     # dilation requested early on both sides; a conformant server may replay the peer's dilate-0 before its version
     from ..env import dilation as _dil     # noqa: F401  (Noise stand-in entropy / make_side seams)
